@@ -227,7 +227,7 @@ def histories(ctx, model_ok, tmp, mode):
                     except Exception as e:
                         problems.append(f"dataset {i} ({kind_of[i]} artifact {art[i]}) cannot be read: {type(e).__name__}")
                         break
-            if problems and mode == "C09":
+            if problems:
                 viol(f"after {ops[-4:]}: " + "; ".join(problems[:3]), f"art:{ops}", {"kind": "art-history", "ops": ops, "problems": problems})
                 break
             if mode == "C10":
